@@ -572,6 +572,66 @@ fn stream_ops(ctx: &mut Ctx, r: &mut Rng) {
         };
         ctx.emit(l.finish(&out));
     }
+    // a NEW connection (SYN, then a well-formed message) on a 4-tuple whose previous connection left an
+    // unfinished flow behind: analysed as by a fresh analyzer? (open finding KF.C01.reusedTupleUnfinishedFlow)
+    for i in 0..ctx.n(6, 40) {
+        let c = (net::v4(0x0a05_0000 + i as u32), 41000);
+        let sv = (net::v4(0x0a06_0001), if i % 2 == 0 { 443 } else { 80 });
+        let tls = i % 2 == 0;
+        let mut rr = Rng::new(i as u64 ^ 0x77);
+        let hello = net::client_hello(&mut rr);
+        let request = net::http1_request(&mut rr);
+        let cut = if tls { r.range(6, hello.len() as u64 - 1) as usize } else { r.range(5, request.len() as u64 - 1) as usize };
+        let mut l = Line::op("C01.reuse");
+        l.tok(if tls { "tls" } else { "http" }).usize(cut);
+        begin(&format!("C01.reuse #{i}"));
+        let out = match catch_unwind(AssertUnwindSafe(|| {
+            let run = |with_history: bool| -> String {
+                let mut tcache: TtlCache<huginn_net_tls::FlowKey, huginn_net_tls::TlsClientHelloReader> = TtlCache::new(100);
+                let mut hcache: TtlCache<huginn_net_http::http_process::FlowKey, huginn_net_http::http_process::TcpFlow> = TtlCache::new(100);
+                let procs = huginn_net_http::http_process::HttpProcessors::new();
+                let mut feed = |g: &Seg| -> String {
+                    let b = net::ip_bytes(g);
+                    let ip = pnet::packet::ipv4::Ipv4Packet::new(&b).unwrap();
+                    if tls {
+                        match huginn_net_tls::process_ipv4_packet(&ip, &mut tcache) {
+                            Ok(o) => canon::tls(&o),
+                            Err(_) => "err".into(),
+                        }
+                    } else {
+                        match huginn_net_http::process_ipv4_packet(&ip, &mut hcache, &procs, None) {
+                            Ok(o) => format!("{}", canon::http_req(&o.http_request.as_ref().map(|q| q.sig.clone()))),
+                            Err(_) => "err".into(),
+                        }
+                    }
+                };
+                if with_history {
+                    // old connection: SYN, then only the first part of its message; it never completes
+                    let mut syn = Seg::new(c, sv, SYN);
+                    syn.seq = 5000;
+                    let _ = feed(&syn);
+                    let mut d = Seg::new(c, sv, ACK | PSH);
+                    d.seq = 5001;
+                    d.payload = if tls { hello[..cut].to_vec() } else { request[..cut].to_vec() };
+                    let _ = feed(&d);
+                }
+                // new connection on the same 4-tuple: SYN with a new ISN, then the whole message
+                let mut syn = Seg::new(c, sv, SYN);
+                syn.seq = 900_000;
+                let a = feed(&syn);
+                let mut d = Seg::new(c, sv, ACK | PSH);
+                d.seq = 900_001;
+                d.payload = if tls { hello.clone() } else { request.clone() };
+                let b = feed(&d);
+                format!("{a},{b}")
+            };
+            format!("{} @@ {}", run(true), run(false))
+        })) {
+            Ok(s) => s,
+            Err(_) => "PANIC:reuse".to_string(),
+        };
+        ctx.emit(l.finish(&out));
+    }
     // HTTP/1, HTTP/2 byte streams and the incremental HTTP/2 fingerprint extractor
     let n = ctx.n(3000, 30000);
     for i in 0..n {
